@@ -39,6 +39,8 @@ type Spend struct {
 	PrevTx   string
 	PrevVout uint32
 	Err      string
+	// ReplyLost: the chain accepted the transaction but the wallet call returned an error to the node
+	ReplyLost bool
 }
 
 // TokenWallet implements swap.Wallet and swap.Validator on synthetic transactions.
@@ -160,6 +162,9 @@ func (t *TokenWallet) spend(kind string, params *swap.OpeningParams, claim *swap
 		return "", "", "", ErrDead
 	}
 	if fk == FaultAfter {
+		w.mu.Lock()
+		rec.ReplyLost = true
+		w.mu.Unlock()
 		return "", "", "", ErrInjected
 	}
 	return txid, txHex, "addr-" + node.Name, nil
